@@ -1,7 +1,7 @@
 # Per-property run configuration for ./check (tier knobs only; the oracles live in the Go tests)
 # plus the MANIFEST text for each claimed check (tools/mkmanifest.py writes MANIFEST.json from this).
 
-HOOK_COMMITS = []
+HOOK_COMMITS = ["a672138"]
 
 _PENDING = "check not built yet in this round (see DESIGN.md build order); not claimed until it runs green on the unchanged tree"
 
@@ -154,6 +154,15 @@ CHECKS["C06"] = {
     "level_note": "Successful AMQP delivery cannot be exercised offline. Runs as root, so permission-based faults are replaced by structural ones (directory in place of the file, /dev/full).",
     "quick": {"checks": 150, "timeout": 1200},
     "thorough": {"checks": 5000, "timeout": 3400, "shards": 8},
+}
+CHECKS["C15"] = {
+    "module": "harness26", "go": "go1.26.8", "pkg": "./props/c15", "engine": "rapid+synctest",
+    "level": "exploration",
+    "technique": "model-based property testing (rapid) of the real retry loop under a synctest fake clock with a scripted transport; state-machine testing of the token cache",
+    "level_text": "Per-attempt outcome scripts (success, HTTP 500/502/503/504/507, 400/403/404, connection refused, per-attempt timeout, retryable / non-retryable token error, key-usage error, malformed reply) up to retry limits 1-8 are replayed to the real worker-token client (constructed through a verif-tagged hook, requests through http.DefaultClient with a scripted RoundTripper) for ping, get-key and sign, optionally with caller cancellation at a drawn fake instant. Model: attempts stop at the first success or non-transient outcome and never exceed the limit; success iff some attempt succeeded; key-usage errors keep their type and key name; delays between attempts lie in [1 s, 30 s], never shrink and grow by a factor e until the cap (exact under the fake clock); cancellation returns at the same fake instant and no attempt starts afterwards; every request carries the per-process secret. The real worker RPC handler (hook) in front of a scripted token must answer 403 without touching the token for a wrong or missing secret and carry the retryable / usage / key classification across the RPC boundary. The token cache is driven as a state machine {get, get pinned to a key id, rotate, advance clock}: a pinned request never gets a key with another id, a cached key is served exactly until it expires.",
+    "level_note": "Trusts go1.26.8 testing/synctest. Uses two add-only hooks guarded by the build tag verif (token/worker/verif_hooks.go, cmdline/workercmd/verif_hooks.go) that only construct otherwise unexported structs. The worker subprocess life cycle (spawn, restart) is not exercised.",
+    "quick": {"checks": 3000, "timeout": 600, "vmem_kb": 0},
+    "thorough": {"checks": 60000, "timeout": 3000, "vmem_kb": 0, "shards": 8},
 }
 for _pid in CHECKS:
     NOT_APPLICABLE.pop(_pid, None)
